@@ -23,8 +23,19 @@ def make_comb(spec):
                 p = np.asarray(p, dtype=float)
                 return float(np.sum(np.log((1.0 - np.minimum(p, 1.0)) / p)))
         return logit
+    if spec[0] == "invn":
+        # the library's own weighted combiner, as irr.simulate_npc_dist uses it: sizes are perfect squares (exact weights)
+        from permute import npc as _NPC
+        size = np.array([int(x) for x in spec[1]])
+        return lambda p: _NPC.inverse_n_weight(p, size)
     w = [float(Fraction(x)) for x in spec[1]]
     return lambda p: -sum(wi * pi for wi, pi in zip(w, list(p)))
+
+
+def weights_of(spec):
+    if spec[0] == "invn":
+        return [Fraction(1, math.isqrt(int(x))) for x in spec[1]]
+    return [Fraction(x) for x in spec[1]]
 
 
 def psi_exact(spec, p, tab=None):
@@ -45,7 +56,7 @@ def psi_exact(spec, p, tab=None):
         r = Fraction(1)
         for x in p: r *= (1 - min(x, Fraction(1))) / x
         return r
-    w = [Fraction(x) for x in spec[1]]
+    w = weights_of(spec)
     return -sum(wi * pi for wi, pi in zip(w, p))
 
 
@@ -112,7 +123,7 @@ def comb_coq(spec, tab=None):
     if spec == "possum": return "PosSum"
     if spec == "negmax": return "NegMax"
     if spec == "logit": return "Logit"
-    return "(NegWSum " + clist([Fraction(x) for x in spec[1]], cq) + ")"
+    return "(NegWSum " + clist(weights_of(spec), cq) + ")"
 
 
 def qmat(rows):
